@@ -203,6 +203,22 @@ func c11Build(r *core.Rng, fresh ...int) *c11Target {
 			n.Kids = append(n.Kids, &TNode{T: "leaf", Leaf: &LeafDesc{Tag: "fresh-type"}})
 		}
 	})
+	// Conditions that were assembled incompletely by the constructor (which records a complaint) and completed afterwards
+	t.tree.Walk(func(n *TNode) {
+		if n.T == "cond" && r.Chance(1, 4) {
+			n.ViaCond = true
+		}
+	})
+	if r.Chance(1, 12) {
+		// one nested stack of another magnitude (whatever a query keeps per element is kept thousands of times)
+		bulk := &TNode{T: "stack", Kind: []string{"AND", "LIST", "BASIC"}[r.Intn(3)]}
+		for i, n := 0, []int{4095, 4096, 4200}[r.Intn(3)]; i < n; i++ {
+			bulk.Kids = append(bulk.Kids, &TNode{T: "leaf", Leaf: &LeafDesc{Tag: "int", I: int64(i)}})
+		}
+		if t.tree.Cap == 0 {
+			t.tree.Kids = append(t.tree.Kids, bulk)
+		}
+	}
 	t.root = t.tree.BuildStack()
 	t.twin = t.tree.BuildStack()
 	var walk func(s stackage.Stack, d int)
